@@ -1576,10 +1576,22 @@ def r01_6(ctx):
 
 
 class _NP(StandIn):
-    """named point: equal iff same name"""
+    """named point: equal iff same name.  With coordinates it can be unpacked; two points of the same name may carry
+    coordinates that differ in the last bits (the same crossing computed on each of the two curves: equal as points
+    compare, within their tolerance, and not bit-identical)"""
 
-    def __init__(self, name):
-        self.name = name
+    def __init__(self, name, xy=None):
+        self.name, self.xy = name, xy
+
+    def __iter__(self):
+        if self.xy is None:
+            raise TypeError("point without coordinates")
+        return iter(self.xy)
+
+    def __getitem__(self, i):
+        if self.xy is None:
+            raise TypeError("point without coordinates")
+        return self.xy[i]
 
     def __eq__(self, o):
         return isinstance(o, _NP) and o.name == self.name
@@ -1626,9 +1638,12 @@ def r01_7(ctx):
                            "another curve, in which case the piece of that curve which starts there (by segment index, "
                            "also for curved pieces with interior control points)", floor=2)
     fn = ctx.fn("shape.FollowPath.pursue_path")
-    P0, P1, Q0, X, Y = (_NP(n) for n in ("P0", "P1", "Q0", "X", "Y"))
+    P0, P1, Q0 = _NP("P0", (0.0, 0.0)), _NP("P1", (3.0, 3.0)), _NP("Q0", (5.0, 0.0))
+    X, Y = _NP("X", (1.0, 2.0)), _NP("Y", (2.0, 1.0))
+    # the crossings as the second curve stores them: the same points, their coordinates a rounding error apart
+    X2, Y2 = _NP("X", (1.0 + 2e-13, 2.0)), _NP("Y", (2.0, 1.0 - 2e-13))
     J0 = _CurveP("J0", [P0, X, P1, Y])            # pieces P0-X, X-P1, P1-Y, Y-P0
-    J1 = _CurveP("J1", [X, Y, Q0])                # pieces X-Y, Y-Q0, Q0-X
+    J1 = _CurveP("J1", [X2, Y2, Q0])              # pieces X-Y, Y-Q0, Q0-X
     cases = [((0, 1), ((0, 1), (0, 2), (1, 1), (1, 2))), ((1, 1), ((1, 1), (1, 2), (0, 1), (0, 2))),
              ((0, 5), ((0, 1), (0, 2), (1, 1), (1, 2))),          # the start index wraps around
              ((1, 0), ((1, 0), (0, 3), (0, 0)))]                  # the other cycle: X-Y on J1, then Y-P0, P0-X on J0
